@@ -104,6 +104,21 @@ Theorem C01_flat_replace_step_applies_iff_valid : forall s doc from to sl rf rt 
 Proof. exact flat_closed_replace_step. Qed.
 Print Assumptions C01_flat_replace_step_applies_iff_valid.
 
+(* ... and a deletion inside one parent node (the inverse of typing, the commonest undo): it applies exactly when the
+   remaining child sequence is valid for the parent's type, and FAILS otherwise *)
+Theorem C01_flat_delete_step_applies_iff_valid : forall s doc from to rf rt parent i j nb na,
+  (exists ty at_ m cs, doc = Elem ty at_ m cs) ->
+  resolve s doc from = Ok rf -> resolve s doc to = Ok rt -> from <= to ->
+  rp_depth rf = rp_depth rt -> (forall d, d < rp_depth rf -> rp_index rf d = rp_index rt d) ->
+  rp_parent rf = Ok parent ->
+  rp_index rf (rp_depth rf) = Ok i -> rp_index rt (rp_depth rf) = Ok j ->
+  rp_node_before s rf = Ok nb -> rp_node_after s rt = Ok na ->
+  if valid_content s (node_ty s parent) (remaining parent rf rt i j nb na)
+  then exists d', apply s (SReplace from to (SL [] 0 0) false) doc = ROk d'
+  else apply s (SReplace from to (SL [] 0 0) false) doc = RFail.
+Proof. exact flat_delete_step. Qed.
+Print Assumptions C01_flat_delete_step_applies_iff_valid.
+
 (* the hypotheses are satisfiable by a slice open on both sides to different depths *)
 Local Open Scope string_scope.
 Definition ex_schema : schema :=
